@@ -435,3 +435,11 @@ func VerifStressObserver(q uint64, seed int64) (*TraceObserver, func()) {
 		}
 	}
 }
+
+
+// VerifIdleObserver returns a trace observer with its queue and supportability goroutine but without a worker: batches
+// handed to it stay queued.  Used by the proc engine to give a run the infinite-tracing path of processSpanBatch.
+func VerifIdleObserver(queueSize uint64) *TraceObserver {
+	to, _ := newTraceObserverWithWorker(&Config{QueueSize: queueSize, RunId: "verif", License: "L", Host: "127.0.0.1", Port: 1})
+	return to
+}
